@@ -6,6 +6,7 @@ Line-protocol driver for the C19 model (serde bridge).  Requests:
   fmt <nf> <bits>=<hex>… <ns> <hexstr>=<hexdbg>… <Value>   → "ok <hex>"   `{{ v }}`
   ctx <SVal>            → "ok <n> <hexkey> <Value> …" | "err"  Context::from_serialize
   reser <Value>         → "ok <Value>" | "err badkey"          Value::from_serializable(&value)
+  arg <ty> <Value>      → "ok <SVal>" | "err type" | "err range"  T::try_from(value) / Kwargs::get::<T>
 
 Wire form of types:  bool i8 … u128 f32 f64 char string unit cstring unitstruct
   option T | seq T | tuple <n> T… | map K V | struct <n> (<hexname> T)… | newtype T
@@ -282,6 +283,20 @@ def handle (line : String) : String :=
         | none => "bad-args"
       | _ => "bad-args"
     | none => "bad-args"
+  | "arg" :: ty :: rest =>
+    match Wire.parseValue rest with
+    | some (x, []) =>
+      let r : Option (Except ArgErr SVal) :=
+        if ty == "f32" then some (argF32 casts x)
+        else if ty == "f64" then some (argF64 x)
+        else if ty == "bool" then some (argBool x)
+        else (parseIntTy ty).map fun t => argInt t x
+      match r with
+      | some (.ok y) => "ok " ++ showVal y
+      | some (.error .invalidType) => "err type"
+      | some (.error .outOfRange) => "err range"
+      | none => "bad-type"
+    | _ => "bad-value"
   | "reser" :: rest =>
     match Wire.parseValue rest with
     | some (x, []) =>
